@@ -87,6 +87,8 @@ func init() {
 		if err != nil {
 			evid.Inconclusive("trace validation: %v", err)
 		}
+		rc, rev := repoTestTraces(run, map[string]bool{"C04": true})
+		fmt.Printf("C04: %d connections (%d hook events) of the repository's own test suite validated by TLC (enhanced code of every reply)\n", rc, rev)
 		fmt.Printf("C04: TLC %d states; %d/%d edges lock-step; %d pipelined/segmented paths; %d recorded walks validated (%d accepted)\n",
 			mc.Distinct, st.Covered, st.Edges, np, vs.Walks, vs.Accepted)
 		samples := append(st.Samples, psamples...)
